@@ -1109,6 +1109,15 @@ def run(ctx):
     entry = rule_R1(ctx)
     chain_dict = rule_R2(ctx, entry)
     rule_R3(ctx, entry[1].keys(), chain_dict)
+    # "self-consistent entries": the recorded alpha is the value the recorded log_p_one was computed under only if
+    # assigning alpha refreshes everything derived from it (same rule object as C13.U3), and log_p_one is the
+    # specified density of the recorded tree (C03.T1-T3)
+    from ..formula import imported
+    from . import C13, _premises
+
+    ctx._own_rules = set(ctx.rule_min)
+    imported(ctx, C13.rule_U3)
+    _premises.density(ctx)
 
 
 # --------------------------------------------------------------------------- self-test catalogue
